@@ -250,3 +250,70 @@ def soup_case(rng: random.Random) -> Case:
         c = rng.randrange(1, len(text))
         return Case([text[:c], text[c:]], "soup-split")
     return Case([text], "soup")
+
+
+# ---------------------------------------------------------------- delimiter confusion
+# For every quoting style q and every escape-like fragment e:  SELECT q..e q ; WRITE ; -- q   and variants.
+# The literal bodies are RAW (not re-escaped for the style): the point is that SQLite and the stripper may
+# disagree about where the literal ends; whenever the stripper runs on to the later quote it hides the write.
+ESCAPE_LIKE = ["\\", "\\\\", "\\'", '\\"', "\\`", "\\]", "''", '""', "``", "]]", "--", "/*", "*/", "$", ":", "@", "#",
+               "\\\n", "\\;", "$a(", ":a(", "\\x", "%\\", "\\%", "\\_"]
+CONF_WRITES = ["DELETE FROM t", "DROP TABLE u", "INSERT INTO aux.v VALUES (7, 0)", "UPDATE t SET b = 0", "CREATE TABLE n(x)"]
+
+
+def _closer(q):
+    return "]" if q == "[" else q
+
+
+def confusion_texts(q, e, w):
+    o, c = q, _closer(q)
+    out = []
+    for body in ("x" + e, e, "C:" + e):
+        lit = o + body + c
+        out += [
+            f"SELECT {lit}\\; {w}; --{c}",
+            f"SELECT {lit} ; {w} ; /*{c}*/",
+            f"SELECT {lit}\n; {w}\n; SELECT {o}z{c}",
+            f"SELECT {o}a{c}, {lit}; {w}; SELECT {o}z{c}",
+            f"SELECT * FROM t WHERE b LIKE {lit}; {w}; --{c}",
+            f"SELECT {lit}; {w}; --{o}{c}{c}",
+            f"SELECT {lit};{w};{o}",
+            f"SELECT {lit}\\; {w}; --{c}",
+            f"SELECT {lit}\\\n; {w}; --{c}",
+            f"SELECT {o}{body}{c}{c}; {w}; --{c}",
+        ]
+    # the fragment in a comment, before ; and before a newline
+    out += [
+        f"SELECT 1 -- {e}\n; {w}; --{c}",
+        f"SELECT 1 /* {e} */; {w}; /*{c}*/ --{c}",
+        f"SELECT 1 {e}; {w}; --{c}",
+        f"SELECT {o}x{c} {e}\n; {w}; --{c}",
+        f"SELECT {o}x{c}; {w}; -- {e}{c}",
+    ]
+    return out
+
+
+def confusion(rng: random.Random):
+    out = []
+    k = 0
+    for q in STYLES:
+        for e in ESCAPE_LIKE:
+            w = CONF_WRITES[k % len(CONF_WRITES)]
+            k += 1
+            for t in confusion_texts(q, e, w):
+                out.append(Case([t], "delimiter-confusion"))
+    return out
+
+
+def rand_confusion(rng: random.Random) -> Case:
+    """Random member of the family: several escape-like fragments in one literal, random style and write."""
+    q = rng.choice(STYLES)
+    o, c = q, _closer(q)
+    body = "".join(rng.choice(ESCAPE_LIKE + ["x", "C:", " ", c + c, "%"]) for _ in range(rng.randint(1, 4)))
+    w = rng.choice(CONF_WRITES)
+    q2 = rng.choice(STYLES)
+    tail = rng.choice([f"--{c}", f"/*{c}*/", f"SELECT {o}z{c}", f"{o}", f"--{q2}{c}", f"-- {_closer(q2)} {c}", ""])
+    sep = rng.choice(SEPARATORS)
+    pre = rng.choice(["SELECT ", "SELECT * FROM t WHERE b = ", "SELECT 1, ", "EXPLAIN SELECT ", "WITH c AS (SELECT 1 AS x) SELECT x, "])
+    text = f"{pre}{o}{body}{c}{sep}{w}; {tail}"
+    return Case([recase(rng, text, rng.choice(("upper", "lower")))] if rng.random() < 0.3 else [text], "delimiter-confusion-random")
